@@ -398,12 +398,22 @@ func (u *upstreamSrv) handle(w http.ResponseWriter, r *http.Request) {
 var applyMu sync.Mutex
 
 func applyConfig(c *config.PikeConfig) error {
+	return applyConfigBetween(c, nil)
+}
+
+// applyConfigBetween: the update is not atomic for the request handlers; between (if any) runs
+// after the locations have been replaced and before the servers are updated, where client
+// requests can fall in a running instance
+func applyConfigBetween(c *config.PikeConfig, between func()) error {
 	applyMu.Lock()
 	defer applyMu.Unlock()
 	compress.Reset(c.Compresses)
 	cache.ResetDispatchers(c.Caches)
 	upstream.ResetWithOnStats(c.Upstreams, func(upstream.StatusInfo) {})
 	location.Reset(c.Locations)
+	if between != nil {
+		between()
+	}
 	server.Reset(c.Servers)
 	return server.Start()
 }
